@@ -20,8 +20,8 @@ func main() { harness.Main("C12", "exploration", run) }
 func run(e *harness.Env) {
 	e.Rule = "full product per sub-space. (di) every element sequence of total length <=3 (quick) / <=4 (thorough) over " +
 		"{H1..H4, short paragraph, paragraph 3x the configured maximum, list-intro paragraph, flat list, nested list, 2x2 table, image with/without alt} " +
-		"x every cut into <=2 pages x {all size configurations and presets on the plain variant; default/small/tiny on the variants " +
-		"headings-as-TOC-matched-paragraphs, offset page numbers, empty page first/middle/last}; " +
+		"x every cut into <=2 pages x {all 18 size configurations and presets on the plain variant; default/small/tiny on the variants " +
+		"headings-as-TOC-matched-paragraphs, offset page numbers, empty page first/middle/last} (length 4: 8 configurations on the plain variant, small on 3 variants); " +
 		"(di-nest) every heading-level sequence over H1..H4 of length <=5 (quick) / <=6 (thorough), one body element per heading; " +
 		"(layout) the same kind of sequences over what model.PageLayout can hold {H1..H4, paragraphs, lists} cut into <=3 pages x ChunkerConfig variants; " +
 		"(layout-nest) every heading-level sequence of length <=4 / <=5 x every subset of headings that have a body paragraph x two page packings. " +
@@ -84,6 +84,8 @@ func owned(e *harness.Env, base string) (bool, map[string]bool) {
 	return len(only) > 0, only
 }
 
+var failSeen = map[string]int{}
+
 func report(e *harness.Env, base string, only map[string]bool, nontrivial bool, j judged) {
 	failed := false
 	for _, c := range clauses {
@@ -93,6 +95,13 @@ func report(e *harness.Env, base string, only map[string]bool, nontrivial bool, 
 		}
 		failed = true
 		failLog(v.sig, base+" clause="+c)
+		// the harness keeps every failing descriptor (known-finding matching); keep the payload of the
+		// first cases of each signature only
+		failSeen[v.sig]++
+		if failSeen[v.sig] > 40 && !e.Replaying() {
+			e.Fail(base+" clause="+c, v.sig, v.detail, nil)
+			continue
+		}
 		short := j.dump
 		if len(short) > 600 {
 			short = short[:600] + "…"
@@ -375,6 +384,19 @@ var diVariants = []variant{
 	{"toc", 3, "mid"},
 }
 
+// long4 selects the (variant, configuration) pairs that are run on sequences of length 4 (thorough):
+// eight size configurations on the plain variant, small200 on three variants.
+func long4(vi int, v variant, cfg string) bool {
+	if vi == 0 {
+		switch cfg {
+		case "plain", "small200", "tiny64", "tokens100", "sentences3", "semantic1-2", "nosemantic300", "preset-large":
+			return true
+		}
+		return false
+	}
+	return cfg == "small200" && (v == variant{"toc", 0, "none"} || v == variant{"elem", 3, "none"} || v == variant{"elem", 0, "mid"})
+}
+
 func spaceDI(e *harness.Env) {
 	maxLen := 3
 	if e.Thorough() {
@@ -397,6 +419,9 @@ func spaceDI(e *harness.Env) {
 				for ci, cfg := range cfgs {
 					if vi > 0 && ci > 2 {
 						break // variants: plain, small200, tiny64 only
+					}
+					if len(seq) >= 4 && !long4(vi, v, cfg.name) {
+						continue
 					}
 					spec := docSpec{pages: pages, empty: ei, pnumOff: v.off, hrep: v.hrep, layout: v.hrep == "toc", lpToks: cfg.lpWords, majorMax: 6}
 					base := desc("space", "di", "ck", "di", "cfg", cfg.name, "hrep", v.hrep, "pnum", v.off+1, "empty", v.empty,
